@@ -23,6 +23,21 @@ def check(tier, seed, only=None):
 
     rep.add_job_results(runner.run_jobs(jobs, prog))
     rep.default_replays()
+    native_roll(rep, tier, seed)
+    rep.assumptions.append("ASSUMED (NASM): _rolling_hash2_run_until_00/_04 satisfy the contract VF_C_RUN_UNTIL proved for the C loop; bounded native differential check attached")
+    rep.assumptions.append("the library's table rolling_hash2_table1 is a non-const global: its initial image is proved equal to the pinned table, and no library function writes it (frame clauses of every contract)")
+    rep.notes.append("observation: _rolling_hash2_run forms the pointer `buffer - w` (before the start of the caller's buffer) to pass it to the scan; "
+                     "CBMC's pointer-overflow check is switched off for this translation unit for that reason; no access below buffer[0] happens (bounds obligations discharged)")
+    rep.notes.append("ghost hash stream g_H (contracts/rolling_prelude.h): computed by ghost assignments next to the real updates; the contracts of reset, "
+                     "the C scan loop and _rolling_hash2_run are proved for ARBITRARY table contents; init is proved to install the pinned table and its rotation; "
+                     "lemma_reset / lemma_step (harness/rolling_lemmas.c) are the induction steps from the recurrence to the closed form over the last w bytes")
+    rep.notes.append("closing argument (not machine checked as a whole): induction over the stream positions with lemma_step, started by lemma_reset")
+    return rep.finish(
+        "goto-instrument --dfcc --enforce-contract <fn> [--replace-call-with-contract ...] --apply-loop-contracts; cbmc --bounds-check --pointer-check --unwind 52|260 --unwinding-assertions",
+        "rolling recurrence over history||buffer as a ghost hash stream, one arbitrary witness position; closed form H(e) = XOR_{j<w} rol64(T1[byte(e-j)], j) by two lemmas")
+
+
+def native_roll(rep, tier, seed):
     # bounded stand-in for the NASM scan loops (assumed to satisfy the contract proved for the C loop)
     try:
         lmax, nseed = (70, 8) if tier == "quick" else (300, 40)
@@ -45,17 +60,6 @@ def check(tier, seed, only=None):
                                   "assumed contract of the NASM scan loop violated on the real assembly: " + first, path, True)
     except Exception as e:
         rep.add_undecided("native rolling check could not be built/run: %s" % e)
-    rep.assumptions.append("ASSUMED (NASM): _rolling_hash2_run_until_00/_04 satisfy the contract VF_C_RUN_UNTIL proved for the C loop; bounded native differential check attached")
-    rep.assumptions.append("the library's table rolling_hash2_table1 is a non-const global: its initial image is proved equal to the pinned table, and no library function writes it (frame clauses of every contract)")
-    rep.notes.append("observation: _rolling_hash2_run forms the pointer `buffer - w` (before the start of the caller's buffer) to pass it to the scan; "
-                     "CBMC's pointer-overflow check is switched off for this translation unit for that reason; no access below buffer[0] happens (bounds obligations discharged)")
-    rep.notes.append("ghost hash stream g_H (contracts/rolling_prelude.h): computed by ghost assignments next to the real updates; the contracts of reset, "
-                     "the C scan loop and _rolling_hash2_run are proved for ARBITRARY table contents; init is proved to install the pinned table and its rotation; "
-                     "lemma_reset / lemma_step (harness/rolling_lemmas.c) are the induction steps from the recurrence to the closed form over the last w bytes")
-    rep.notes.append("closing argument (not machine checked as a whole): induction over the stream positions with lemma_step, started by lemma_reset")
-    return rep.finish(
-        "goto-instrument --dfcc --enforce-contract <fn> [--replace-call-with-contract ...] --apply-loop-contracts; cbmc --bounds-check --pointer-check --unwind 52|260 --unwinding-assertions",
-        "rolling recurrence over history||buffer as a ghost hash stream, one arbitrary witness position; closed form H(e) = XOR_{j<w} rol64(T1[byte(e-j)], j) by two lemmas")
 
 
 def replay(path):
